@@ -139,7 +139,7 @@ def mutate_part(rng, p):
         if q["rk"] == "list":
             q["key"] = None
     else:
-        slots = [s for s in ("key", "index", "value", "cond") if q.get(s) is not None]
+        slots = [s for s in ("key", "index", "value", "cond", "lcond", "mcond") if q.get(s) is not None and (q["rk"] == "mol" or s not in ("lcond", "mcond"))]
         if not slots:
             q["value"] = ("prim", 1)
         else:
